@@ -60,6 +60,18 @@ open GJS GJS.Props.Flat
 
 def isObj (p : Schema) : Bool := p.node.types == ["object"]
 
+def isArr (p : Schema) : Bool := p.node.types == ["array"]
+
+/-- the schema of an array member's items (the empty schema if there is none) -/
+def itemsOf (p : Schema) : Schema := p.node.items.getD default
+
+/-- an array of scalars that states only item counts (on the array) and nothing the generated code does not check -/
+def arrMemberB (p : Schema) : Bool :=
+  p.node.types == ["array"] && p.node.ref == "" && p.node.enum.isNone && p.node.ext.isNone && p.node.anyOf.isEmpty &&
+  p.node.allOf.isEmpty && p.node.default.isNone && p.node.items.isSome && flatPropB (itemsOf p) &&
+  !p.node.hasNot && p.node.multipleOf.isNone && p.node.format == "" && !hasNumTop p && !hasStrTop p &&
+  decide (0 ≤ p.node.maxItems) && !(itemsOf p).node.hasNot && topFree (itemsOf p)
+
 /-- the type names generated for a tree of objects (depth first, members before their parent) -/
 def scopes : Nat → String → Schema → List String
   | 0, _, _ => []
@@ -75,7 +87,7 @@ def objShapeB (t : Schema) : Bool :=
 def nodeFullB (t : Schema) : Bool :=
   !t.node.hasNot && t.node.multipleOf.isNone && t.node.format == "" && decide ((akeys t.node.props).Nodup) &&
   t.node.required.all (fun k => (akeys t.node.props).contains k) && topFree t &&
-  t.node.props.all (fun p => isObj p.2 || kwOKB p.2)
+  t.node.props.all (fun p => isObj p.2 || isArr p.2 || kwOKB p.2)
 
 def memberNameB (t : Schema) (n : String) : Bool :=
   (alookup n t.node.props).isSome && tagNameOK n && isAsciiStr n && fname n != "AdditionalProperties"
@@ -85,7 +97,7 @@ def treeFullB : Nat → Schema → Bool
   | 0, _ => false
   | d + 1, t => objShapeB t && nodeFullB t &&
       (sortedKeys t.node.props).all (fun n => memberNameB t n &&
-        (flatPropB (propOf t n) || (isObj (propOf t n) && treeFullB d (propOf t n))))
+        (flatPropB (propOf t n) || (isObj (propOf t n) && treeFullB d (propOf t n)) || arrMemberB (propOf t n)))
 
 end GJS.Props.Tree
 
